@@ -13,25 +13,19 @@ Answer(M, op, a) ==
       [] op = "pred" -> Pred(M, a)
       [] op = "succ" -> Succ(M, a)
 
-TraceInit == l = 1 /\ cur = [universe |-> 0, vals |-> << >>]
-Build == /\ l <= Len(Rec) /\ Rec[l].e = "def"
-         /\ LET e == Rec[l] M == [universe |-> e.universe, vals |-> e.vals] IN
-              /\ WellFormed(M) /\ e.built = "ok"
-              /\ e.obs = <<Len_(M), CountOnes(M), CountZeros(M), IsMultiset(M)>>
-              /\ cur' = M
-         /\ l' = l + 1
-Query == /\ l <= Len(Rec) /\ Rec[l].e = "q"
-         /\ LET e == Rec[l] IN \A j \in 1..Len(e.a) : e.r[j] = Answer(cur, e.op, e.a[j])
-         /\ UNCHANGED cur /\ l' = l + 1
-Pairs == /\ l <= Len(Rec) /\ Rec[l].e = "pairs"
-         /\ Rec[l].fwd = OnePairs(cur) /\ Rec[l].back = OnePairs(cur)
-         /\ UNCHANGED cur /\ l' = l + 1
-\* the bit iterator (both directions) lists exactly the distinct positions and has universe items
-BitsEv == /\ l <= Len(Rec) /\ Rec[l].e = "bits"
-          /\ Rec[l].n = cur.universe
-          /\ ToSet(Rec[l].fwd) = ToSet(cur.vals) /\ Len(Rec[l].fwd) = Cardinality(ToSet(cur.vals))
-          /\ Rec[l].back = Rec[l].fwd
-          /\ UNCHANGED cur /\ l' = l + 1
-TraceNext == Build \/ Query \/ Pairs \/ BitsEv
+\* every event after a def names that def's line; verdicts are computed at constant level
+Refers(j) == LET d == Rec[j].d IN d >= 1 /\ d < j /\ Rec[d].e = "def" /\ \A k \in (d + 1)..(j - 1) : Rec[k].e # "def"
+ObjAt(j) == [universe |-> Rec[j].universe, vals |-> Rec[j].vals]
+DefOK(j) == LET e == Rec[j] M == ObjAt(j) IN
+            WellFormed(M) /\ e.built = "ok" /\ e.obs = <<Len_(M), CountOnes(M), CountZeros(M), IsMultiset(M)>>
+QueryOK(j) == LET e == Rec[j] M == ObjAt(e.d) IN Refers(j) /\ \A i \in 1..Len(e.a) : e.r[i] = Answer(M, e.op, e.a[i])
+PairsOK(j) == LET M == ObjAt(Rec[j].d) IN Refers(j) /\ Rec[j].fwd = OnePairs(M) /\ Rec[j].back = OnePairs(M)
+BitsOK(j) == LET M == ObjAt(Rec[j].d) e == Rec[j] IN
+             Refers(j) /\ e.n = M.universe /\ ToSet(e.fwd) = ToSet(M.vals) /\ Len(e.fwd) = Cardinality(ToSet(M.vals)) /\ e.back = e.fwd
+Verdict == [j \in 1..Len(Rec) |-> CASE Rec[j].e = "def" -> DefOK(j) [] Rec[j].e = "q" -> QueryOK(j) [] Rec[j].e = "pairs" -> PairsOK(j)
+                                    [] Rec[j].e = "bits" -> BitsOK(j) [] OTHER -> FALSE]
+TraceInit == l = 1 /\ cur = 0
+Event == /\ l <= Len(Rec) /\ Verdict[l] /\ cur' = (IF Rec[l].e = "def" THEN l ELSE cur) /\ l' = l + 1
+TraceNext == Event
 TraceSpec == TraceInit /\ [][TraceNext]_vars
 =============================================================================
